@@ -20,19 +20,19 @@ import (
 var evSeqA atomic.Uint64
 
 type dcsHist struct {
-	Client  int
-	Inc     string
-	Op      string
-	Path    string // as spelled by the caller
-	Key     string // normalised
-	Value   string
-	InvSeq  uint64
-	RetSeq  uint64
-	InvT    time.Duration
-	RetT    time.Duration
-	Result  string // ok | true | false | exists | notfound | malformed | error:<text>
-	Got     string // value / children returned
-	Done    bool
+	Client int
+	Inc    string
+	Op     string
+	Path   string // as spelled by the caller
+	Key    string // normalised
+	Value  string
+	InvSeq uint64
+	RetSeq uint64
+	InvT   time.Duration
+	RetT   time.Duration
+	Result string // ok | true | false | exists | notfound | malformed | error:<text>
+	Got    string // value / children returned
+	Done   bool
 }
 
 var histMu sync.Mutex
